@@ -97,7 +97,7 @@ def _real_res(nx, nt):
     return r, rf
 
 
-def replay_plot(model, which="pseudopressure", nx=3, nt=4, every=1, rescale=False, ticks=False):
+def replay_plot(model, which="pseudopressure", nx=3, nt=4, every=1, rescale=False, ticks=False, x_max=None):
     import matplotlib
     matplotlib.use("Agg")
     import matplotlib.pyplot as plt
@@ -110,7 +110,11 @@ def replay_plot(model, which="pseudopressure", nx=3, nt=4, every=1, rescale=Fals
     problems = []
     try:
         if which == "pseudopressure":
-            plotting.plot_pseudopressure(r, every=every, rescale=rescale, ax=ax)
+            if x_max is None:
+                plotting.plot_pseudopressure(r, every=every, rescale=rescale, ax=ax)
+            else:
+                # zooming in (x_max, y_max only set the axis limits): the curves are still drawn against the node positions
+                plotting.plot_pseudopressure(r, every=every, rescale=rescale, ax=ax, x_max=float(x_max), y_max=0.9)
             idx = [i for i in range(nt) if i % every == 0]
             lines = ax.get_lines()
             if len(lines) != len(idx):
@@ -196,16 +200,20 @@ def job_profiles(job, nx, nt):
     job.bound(plot_nx=nx, plot_nt=nt, strides=[1, 2, 3])
     r = DuckReservoir(nx, nt)
     x_want = [Q(1, nx) + (1 - Q(1, nx)) * Q(j, nx - 1) for j in range(nx)]
-    for every in (1, 2, 3):
-        for rescale in (False, True):
-            for given_ax in (True, False):
+    xm, ym = fresh("x_max", pos=True), fresh("y_max", pos=True)
+    for every, rescale, given_ax, zoom in [(e, rs_, g, False) for e in (1, 2, 3) for rs_ in (False, True) for g in (True, False)] + \
+            [(1, False, True, True), (2, True, True, True)]:
+        if True:
+            if True:
                 def run():
                     PltStub.made.clear()
                     ax = AxStub() if given_ax else None
+                    if zoom:
+                        return mod.plot_pseudopressure(r, every=every, rescale=rescale, ax=ax, x_max=xm, y_max=ym)
                     out = mod.plot_pseudopressure(r, every=every, rescale=rescale, ax=ax)
                     return out
-                tag = f"profiles[nx={nx},nt={nt},every={every},rescale={rescale},ax={'given' if given_ax else 'created'}]"
-                rp = (replay_plot, {"which": "pseudopressure", "nx": nx, "nt": nt, "every": every, "rescale": rescale})
+                tag = f"profiles[nx={nx},nt={nt},every={every},rescale={rescale},ax={'given' if given_ax else 'created'}{',symbolic x_max / y_max' if zoom else ''}]"
+                rp = (replay_plot, {"which": "pseudopressure", "nx": nx, "nt": nt, "every": every, "rescale": rescale, "x_max": 0.5 if zoom else None})
                 for k, pr in enumerate(paths(job, run, [], max_paths=16)):
                     if pr.exc is not None:
                         job.prove(f"{tag}/raises[path{k}]", pr.pc, replay=rp, bound="any data", note=repr(pr.exc)[:80])
